@@ -709,6 +709,12 @@ def run(ctx):
     rsl = ctx.rule('R-SLEEPSLOT', 'a slot of the scheduler\'s sleep list is erased only when nobody sleeps in it (Empty() seen '
                    'on the path) or after its sleepers were moved to the run queue', minimum=2)
     ctx.guard(lambda: check_sleep_slots(ctx, fb, rsl))
+    rtls = ctx.rule('R-TLS', 'thread-local pointers are per fiber: fiber::GetImpl / Set go through GetTLS / SetTLS of the '
+                    'current fiber, whose values live in the fiber object (_tls) and nowhere with static storage',
+                    minimum=4)
+    from rules import lib_tls
+    if (ctx.guard(lambda: lib_tls.check_tls(ctx, fb, rtls)) or 0) < 4:
+        ctx.guard(lambda: ctx.broken('R-TLS: the thread-local proxy functions were not found'))
     rodr = ctx.rule('R-ODR', 'every inline / constexpr library function used by the yaclib_std wrappers is defined in the '
                     'translation unit that uses it (otherwise that part of the API does not link)', minimum=1)
     from rules import lib_core
